@@ -39,7 +39,7 @@ def _gen_vec(rng, d, cfg):
     if d <= 0 or rng.random() < w["leaf"]:
         r = rng.random()
         if cfg["nf"] and r < cfg["p_vf"]:
-            return ["vf", rng.randrange(cfg["nf"]), rng.choice([0, 0, 0, 1, 2])]
+            return ["vf", rng.randrange(cfg["nf"]), rng.choice([0, 0, 0, 1, 2, 3, 4])]
         if r > 0.97:
             return ["vzero"]
         return ["v", rng.randrange(cfg["nv"])]
@@ -115,7 +115,7 @@ def _template(rng, cfg):
 
     def v():
         if cfg["nf"] and rng.random() < 0.3:
-            return ["vf", rng.randrange(cfg["nf"]), rng.choice([0, 0, 1, 2])]
+            return ["vf", rng.randrange(cfg["nf"]), rng.choice([0, 0, 1, 2, 3, 4])]
         return ["v", rng.randrange(nv)]
 
     def lin(*vs):
@@ -199,6 +199,11 @@ def generate(seed: int, run: int, tier: str) -> dict:
             if 2 <= _size(ast) <= cap:
                 break
         asts.append(ast)
+    if rng.random() < 0.25:
+        # the same two operands under different products in one process (dot, cross, mixed)
+        cfg2 = dict(cfg, p_vf=0.6)
+        A, B = _gen_vec(rng, rng.choice([0, 1]), cfg2), _gen_vec(rng, rng.choice([0, 1]), cfg2)
+        asts = asts[:2] + [["dot", A, B], ["cross", A, B]] + ([["mixed", A, B, ["v", rng.randrange(nv)]]] if rng.random() < 0.5 else [])
     p_evict = rng.choice([0.0, 0.0, 0.2, 0.5])
     p_interrupt = rng.choice([0.0, 0.0, 0.15, 0.4])
     p_clear = rng.choice([0.0, 0.1, 0.4])
@@ -220,7 +225,7 @@ def generate(seed: int, run: int, tier: str) -> dict:
                  "digits": ["r1"] + ["r"] * (nv - 1)}[naming]
         junk = {"name": "r", "k": rng.choice([8, 9, 10, 11, 19, 20])} if naming == "digits" else None
         fnames = rng.choice([None, ["F"] * nf]) if nf else None
-        ops.append({"op": "fresh", "order": order, "vids": [_vid(rng) for _ in order], "assume": assumes, "fargs": fargs, "fdecl": fdecl, "sorder": rng.sample(range(ns), ns), "names": names, "fnames": fnames, "junk": junk})
+        ops.append({"op": "fresh", "order": order, "vids": [_vid(rng) for _ in order], "assume": assumes, "fargs": fargs, "fdecl": fdecl, "sorder": rng.sample(range(ns), ns), "names": names, "fnames": fnames, "junk": junk, "thread": rng.random() < 0.15, "thread_each": rng.random() < 0.12})
         for ast in asts:
             if rng.random() < p_clear:
                 ops.append({"op": "clear_cache"})
@@ -550,7 +555,9 @@ def _applied_args(fargs_j, alt):
     alt=1/2: the same function at another point (t replaced by s0 / by the constant 1/2)."""
     if not alt:
         return list(fargs_j)
-    rep = "s0" if alt == 1 and "s0" not in fargs_j else "q:1/2"  # never the same variable twice (documented NotImplemented)
+    rep = {1: "s0", 2: "q:1/2", 3: "q:-1/1", 4: "q:-2/1"}.get(alt, "q:1/2")
+    if rep == "s0" and "s0" in fargs_j:
+        rep = "q:1/2"  # never the same variable twice (documented NotImplemented)
     return [rep if a == "t" else a for a in fargs_j]
 
 
@@ -561,7 +568,7 @@ def ref_eval(ast, dom: Domain):
         return dom.vec(ast[1])
     if tag == "vf":
         names = _applied_args(dom.bind.fargs[ast[1]], ast[2] if len(ast) > 2 else 0)
-        args = [dom.rat(0) if a == "0" else (dom.rat(1, 2) if a == "q:1/2" else dom.var(a)) for a in names]
+        args = [dom.rat(0) if a == "0" else (dom.rat(*map(int, a[2:].split("/"))) if a.startswith("q:") else dom.var(a)) for a in names]
         return dom.vfunc(ast[1], args)
     if tag == "vzero":
         z = dom.rat(0)
@@ -836,7 +843,7 @@ def _build(ast, world: World, ev):
     if tag == "vf":
         f = world.vfuncs[ast[1]]
         names = _applied_args(world.fargs[ast[1]], ast[2] if len(ast) > 2 else 0)
-        return f(*[sp.S.Zero if a == "0" else (sp.Rational(1, 2) if a == "q:1/2" else world.scalars[a]) for a in names])
+        return f(*[sp.S.Zero if a == "0" else (sp.Rational(*map(int, a[2:].split("/"))) if a.startswith("q:") else world.scalars[a]) for a in names])
     if tag == "vzero":
         return sp.S.Zero
     if tag == "vadd":
@@ -916,7 +923,14 @@ def _fresh(world: World, op: dict) -> None:
         for _ in range(int(junk["k"])):
             world.keep.append(vm.VectorSymbol(junk["name"]))
     for pos, i in enumerate(op.get("order", [])):
-        _new_vec(world, i, vids[pos] if pos < len(vids) else None)
+        if op.get("thread_each"):
+            # every vector symbol of this epoch is created in a thread of its own (joined at once)
+            import threading  # pylint: disable=import-outside-toplevel
+            th = threading.Thread(target=_new_vec, args=(world, i, vids[pos] if pos < len(vids) else None))
+            th.start()
+            th.join()
+        else:
+            _new_vec(world, i, vids[pos] if pos < len(vids) else None)
     world.scalars = {}
     ns = len(world.assumes)
     sorder = list(op.get("sorder", range(ns)))
@@ -1176,6 +1190,14 @@ def child_run(job: dict) -> dict:
             from .observe import COUNTERS  # pylint: disable=import-outside-toplevel
             if COUNTERS.jump(op["prefix"], op["to"]):  # forward only
                 faults["bump"] += 1
+        elif kind == "fresh" and op.get("thread"):
+            # the symbols of this epoch are created in another (joined) thread of the process
+            import threading  # pylint: disable=import-outside-toplevel
+            th = threading.Thread(target=_fresh, args=(world, op))
+            th.start()
+            th.join()
+            faults["created_in_other_thread"] = faults.get("created_in_other_thread", 0) + 1
+            faults["epoch"] += 1
         elif kind == "fresh":
             _fresh(world, op)
             faults["epoch"] += 1
